@@ -88,3 +88,19 @@ Example C15_ext_normalize_nonvacuous :
   normalize_items [IPair "A" 1; ILabel "r_2"; ILabel ""; IPair "A" 2; IPair "Q" (-1); IPair "" 3; IPair "Z" 0] =
   {[ "A" := 3%positive; "r_2" := 1%positive; "" := 3%positive ]}.
 Proof. apply (bool_decide_unpack _); vm_compute; exact Logic.I. Qed.
+
+(** the premise of the two paths theorems is inhabited: C -> A -> B is a chain *)
+Local Instance rxn_eq_dec : EqDecision rxn.
+Proof. solve_decision. Defined.
+Definition ex2_r1 : rxn := default (Rxn "" ∅ ∅) (edges ex2_n0 !! "r_1").
+Definition ex2_r2 : rxn := default (Rxn "" ∅ ∅) (edges ex2_n0 !! "r_2").
+Example C15_ext_rpath_nonvacuous : rpath ex2_n0 "C" ["B"; "A"; "C"].
+Proof.
+  assert (H1 : edges ex2_n0 !! "r_1" = Some ex2_r1) by (apply (bool_decide_unpack _); vm_compute; exact Logic.I).
+  assert (H2 : edges ex2_n0 !! "r_2" = Some ex2_r2) by (apply (bool_decide_unpack _); vm_compute; exact Logic.I).
+  apply rp_step; [apply rp_step; [apply rp_src| |]| |].
+  - exists "r_2", ex2_r2. split; [exact H2|]. split; apply (bool_decide_unpack _); vm_compute; exact Logic.I.
+  - apply (bool_decide_unpack _); vm_compute; exact Logic.I.
+  - exists "r_1", ex2_r1. split; [exact H1|]. split; apply (bool_decide_unpack _); vm_compute; exact Logic.I.
+  - apply (bool_decide_unpack _); vm_compute; exact Logic.I.
+Qed.
